@@ -670,6 +670,14 @@ def _make_case(rng, tool, computer, pre, post, syntax, variant, repeat=False, st
             for u in utts:
                 if u["n"] < 700:
                     u["n"] = int(rng.integers(700, 2401)) if computer is not None else max(u["n"], 2)
+    if variant == "gap" and computer is not None and not (tool == "torch" and _has(POSTS[post], "standardize")):
+        # frame shift larger than the frame: L//2+1 <= n < shift - shift//2 samples are enough for the "too
+        # short" test of the computers to pass and still give (n + shift//2)//shift = 0 frames
+        comp = _mk_computer(COMPUTERS[computer])
+        lo, hi = comp.frame_length // 2 + 1, comp.frame_shift - comp.frame_shift // 2 - 1
+        if lo <= hi:
+            utts[1]["n"] = int(rng.integers(lo, hi + 1))
+            case["gap_n"] = utts[1]["n"]
     if computer is not None and _has(POSTS[post], "standardize"):
         # >= 18 frames, i.e. >= 6 rows after Stack(3): Standardize.apply raises on a single row (pipeline
         # undefined), and a 2-3 row Standardize can have a column whose standard deviation is tiny by chance,
@@ -697,6 +705,7 @@ def _plan(tier, seed):
         ("stft_fbank", "none", "none", "channel"),
         ("si_gabor", "preemph_dither", "none", "rate"),
         ("stft_kaldi", "preemph", "deltas", "mixed"),
+        ("stft_causal_gabor", "preemph", "deltas", "gap"),
     ]
     torch_core = [
         ("stft_fbank", "preemph_dither", "deltas_stack_standardize", "plain"),
@@ -710,6 +719,8 @@ def _plan(tier, seed):
         ("stft_fbank", "none", "none", "channel"),
         ("stft_fbank", "none", "standardize", "plain"),
     ]
+    # shift > frame length, utterance with enough samples for half a frame but no frame: early, for every seed
+    torch_core.insert(2, ("stft_causal_gabor", "none", "stack", "gap"))
     for tool, core in (("kaldi", kaldi_core), ("torch", torch_core)):
         for j, (comp, pre, post, variant) in enumerate(core):
             for s in syntaxes:
@@ -721,8 +732,8 @@ def _plan(tier, seed):
     t = [c for c in cases if c["tool"] == "torch"]
     cases = [c for pair in zip(k, t) for c in pair] + k[len(t) :] + t[len(k) :]
     if tier == "thorough":
-        kv = ["plain", "rate", "channel", "mindur", "mixed"]
-        tv = ["plain", "channel", "manifest", "affix"]
+        kv = ["plain", "rate", "channel", "mindur", "mixed", "gap"]
+        tv = ["plain", "channel", "manifest", "affix", "gap"]
         extra = []
         for comp in list(COMPUTERS) + [None]:
             for pre in PRES:
@@ -801,9 +812,9 @@ def run(tier: str, seed: int) -> dict:
             "pre lists {none, preemph, dither, preemph+dither, dither+preemph, dither+dither} x post lists {none, deltas, "
             "stack, standardize, deltas+stack+standardize, stack+deltas, standardize+deltas} x {inline JSON, JSON file, "
             "YAML file} x utterance sets of 3-5 utterances <= 0.3 s at 8 kHz (incl. too short for a frame, rate "
-            "mismatch, channel >= channels, below --min-duration, 2-3 channel signals with --channel, manifest-listed, "
+            "mismatch, channel >= channels, below --min-duration, frame shift > frame length with an utterance in the gap, 2-3 channel signals with --channel, manifest-listed, "
             "file prefix/suffix); containers wav/npy(f64,f32,i16)/pt; "
-            + ("quick: 19 hand-picked combinations x 3 syntaxes" if tier == "quick" else "thorough: quick plan + full cross product once with random syntax/options")
+            + ("quick: 21 hand-picked combinations x 3 syntaxes" if tier == "quick" else "thorough: quick plan + full cross product once with random syntax/options")
             + "; excluded: torch tool x Standardize x zero-frame utterance (pipeline undefined: Standardize.apply rejects empty input)"
         ),
         assumptions=ASSUMPTIONS,
